@@ -23,7 +23,7 @@ def run(c):
     # (2a) schedules drawn by TLC from the composition model System.tla (spec -> impl), replayed on real instances
     nsched = 400 if c.thorough else 25
     cfg2 = os.path.join(wd, "System.cfg")
-    open(cfg2, "w").write("CONSTANTS\n NC = 3\n NH = 4\n DEPTH = %d\nSPECIFICATION Spec\nCHECK_DEADLOCK FALSE\nINVARIANT Emit\nPROPERTY Independent\n" % (60 if c.thorough else 40))
+    open(cfg2, "w").write("CONSTANTS\n NC = 3\n NH = 5\n DEPTH = %d\nSPECIFICATION Spec\nCHECK_DEADLOCK FALSE\nINVARIANT Emit\nPROPERTY Independent\n" % (60 if c.thorough else 40))
     rs = vlib.run_tlc("System", cfg=cfg2, workers=1, timeout=1200, extra=["-simulate", "num=%d" % nsched, "-depth", "70", "-seed", str(c.seed)], tag="system")
     if rs["errors"] or rs["violated"]:
         raise vlib.ToolError("System.tla simulation failed:\n" + vlib.tail(rs["out"]))
